@@ -20,6 +20,9 @@ LOG = []
 
 class Stamp:
     def __init__(self, n):
+        if isinstance(n, str):           # the class used as its own parser (parse = type): raw wire value "S:<n>"
+            LOG.append(["parse", n])
+            n = int(n[2:]) if n.startswith("S:") else -1
         self.n = n
 
     def __eq__(self, other):
